@@ -67,10 +67,63 @@ def ReprRoot (c : Cfg) (m : InsertMode) (s : NodeStore) (t : CRoot) : Prop :=
 /-- the leaves a batch adds at epoch `ep` -/
 def newLeaves (els : List (BitStr × Dig)) (ep : Nat) : List Leaf := els.map fun x => ⟨x.1, x.2, ep⟩
 
+/-! ### bridge to the definitions used by the lemma files (`Lemmas/Insert*.lean`) -/
+
+theorem hashMode_eq (m : InsertMode) : hashMode m = Ins.hm m := by cases m <;> rfl
+
+theorem maxEp_eq : ∀ t : CTree, CTree.maxEp t = Ins.maxEp t
+  | .leaf _ _ _ => rfl
+  | .node _ l r => by simp only [CTree.maxEp, Ins.maxEp, maxEp_eq l, maxEp_eq r]
+
+theorem minEp_eq : ∀ t : CTree, CTree.minEp t = Ins.minEp t
+  | .leaf _ _ _ => rfl
+  | .node _ l r => by simp only [CTree.minEp, Ins.minEp, minEp_eq l, minEp_eq r]
+
+theorem repr_iff (c : Cfg) (m : InsertMode) (s : NodeStore) : ∀ t : CTree, Repr c m s t ↔ Ins.Rep c m s t
+  | .leaf _ _ _ => Iff.rfl
+  | .node q l r => by
+    simp only [Repr, Ins.Rep, Ins.NodeIs, repr_iff c m s l, repr_iff c m s r, hashMode_eq, maxEp_eq, minEp_eq]
+
+theorem optMax_eq (a b : Option CTree) : optMax a b = Ins.oMax a b := by
+  cases a <;> cases b <;> simp [optMax, Ins.oMax, maxEp_eq]
+
+theorem optMin_eq (a b : Option CTree) : optMin a b = Ins.oMin a b := by
+  cases a <;> cases b <;> simp [optMin, Ins.oMin, minEp_eq]
+
+theorem reprRoot_iff (c : Cfg) (m : InsertMode) (s : NodeStore) (t : CRoot) :
+    ReprRoot c m s t ↔ Ins.RepRoot c m s t := by
+  simp only [ReprRoot, Ins.RepRoot, repr_iff, hashMode_eq, optMax_eq, optMin_eq, Ins.olbl]
+
+theorem newLeaves_eq (els : List (BitStr × Dig)) (ep : Nat) : newLeaves els ep = Ins.newLeaves els ep := rfl
+
+/-- the root record resolves to its latest version, whose hash is the root value -/
+theorem rootHash_of_reprRoot (c : Cfg) (m : InsertMode) (s : NodeStore) (t : CRoot) (ep n : Nat)
+    (h : ReprRoot c m s t) (hle : ∀ lf ∈ t.leaves, lf.ep ≤ ep) :
+    s.rootHash c ⟨ep, n⟩ = .ok (c.rootHash (t.value c (hashMode m))) := by
+  obtain ⟨⟨r, hg, _, _, _, _, hh, hl, _⟩, _, _⟩ := h
+  unfold NodeStore.rootHash
+  rw [Ins.getNode_latest s _ r ep hg (by rw [hl, optMax_eq]; exact Ins.oMax_le _ _ _ hle)]
+  simp only [hh]
+
 /-- the freshly created tree is represented (`Azks::new`) -/
 theorem azksNew_repr (c : Cfg) (m : InsertMode) (s : NodeStore) :
     ∃ s', s.azksNew c = .ok (s', ⟨0, 1⟩) ∧ ReprRoot c m s' CRoot.empty := by
-  sorry
+  refine ⟨s.setRec ⟨NodeLabel.root, TreeNode.newRoot c, none⟩, rfl,
+    ⟨⟨⟨NodeLabel.root, TreeNode.newRoot c, none⟩, ?_, rfl, rfl, rfl, rfl, rfl, rfl, rfl⟩, ?_, ?_⟩⟩
+  · exact Ins.getRec_setRec_self s ⟨NodeLabel.root, TreeNode.newRoot c, none⟩
+  · intro a h; simp [CRoot.empty] at h
+  · intro a h; simp [CRoot.empty] at h
+
+/-- the result of the fold: well-formed, with the old and the new leaves -/
+theorem foldl_insert1_spec (t : CRoot) (hwf : t.WF) (els : List (BitStr × Dig)) (ep : Nat)
+    (hpf : PrefixFree (t.leaves ++ newLeaves els ep))
+    (hlen : ∀ lf ∈ t.leaves ++ newLeaves els ep, 1 ≤ lf.lbl.length ∧ lf.lbl.length ≤ 256) :
+    ((newLeaves els ep).foldl CRoot.insert1 t).WF ∧
+      ((newLeaves els ep).foldl CRoot.insert1 t).leaves.Perm (t.leaves ++ newLeaves els ep) :=
+  Canon.Root.foldl_insert1_spec (newLeaves els ep) t hwf hpf (fun x hx h => by
+    have := (hlen x (List.mem_append_right _ hx)).1
+    rw [h] at this
+    simp at this)
 
 /-- **the refinement theorem** -/
 theorem batchInsert_refines (c : Cfg) (hc : c.emptyLabel.len = 0) (m : InsertMode)
@@ -83,11 +136,29 @@ theorem batchInsert_refines (c : Cfg) (hc : c.emptyLabel.len = 0) (m : InsertMod
     ∃ s' n, s.batchInsert c m a (els.map fun x => (NodeLabel.ofBits x.1, x.2))
         = .ok (s', ⟨a.latestEpoch + 1, n⟩) ∧
       ReprRoot c m s' ((newLeaves els (a.latestEpoch + 1)).foldl CRoot.insert1 t) := by
-  sorry
+  obtain ⟨s', n, t', hrun, hrep', hwf', hperm⟩ :=
+    Ins.batchInsert_root c hc m s a t ((reprRoot_iff c m s t).1 hrep) hwf hep els hpf hlen
+  obtain ⟨fw, fp⟩ := foldl_insert1_spec t hwf els _ hpf hlen
+  have heq : t' = (newLeaves els (a.latestEpoch + 1)).foldl CRoot.insert1 t :=
+    wf_unique _ _ hwf' fw (hperm.trans fp.symm)
+  exact ⟨s', n, hrun, heq ▸ (reprRoot_iff c m s' t').2 hrep'⟩
 
 /-- both configurations satisfy the side condition -/
 theorem emptyLabel_len (c : Cfg) (h : c = Cfg.whatsappV1 ∨ c = Cfg.experimental) : c.emptyLabel.len = 0 := by
-  sorry
+  rcases h with rfl | rfl <;> rfl
+
+/-- the epochs of the leaves after the batch -/
+theorem foldl_ep_le (t : CRoot) (hwf : t.WF) (a : Azks)
+    (hep : ∀ lf ∈ t.leaves, 1 ≤ lf.ep ∧ lf.ep ≤ a.latestEpoch)
+    (els : List (BitStr × Dig))
+    (hpf : PrefixFree (t.leaves ++ newLeaves els (a.latestEpoch + 1)))
+    (hlen : ∀ lf ∈ t.leaves ++ newLeaves els (a.latestEpoch + 1), 1 ≤ lf.lbl.length ∧ lf.lbl.length ≤ 256) :
+    ∀ lf ∈ ((newLeaves els (a.latestEpoch + 1)).foldl CRoot.insert1 t).leaves, lf.ep ≤ a.latestEpoch + 1 := by
+  intro lf h
+  rcases List.mem_append.1 ((foldl_insert1_spec t hwf els _ hpf hlen).2.mem_iff.1 h) with h | h
+  · have := (hep lf h).2; omega
+  · obtain ⟨b, _, rfl⟩ := List.mem_map.1 h
+    exact Nat.le_refl _
 
 /-- corollary: the published root hash after the batch is the canonical one -/
 theorem batchInsert_rootHash (c : Cfg) (hc : c.emptyLabel.len = 0)
@@ -99,7 +170,8 @@ theorem batchInsert_rootHash (c : Cfg) (hc : c.emptyLabel.len = 0)
     (hlen : ∀ lf ∈ t.leaves ++ newLeaves els (a.latestEpoch + 1), 1 ≤ lf.lbl.length ∧ lf.lbl.length ≤ 256) :
     ∃ s' a', s.batchInsert c .directory a (els.map fun x => (NodeLabel.ofBits x.1, x.2)) = .ok (s', a') ∧
       s'.rootHash c a' = .ok (((newLeaves els (a.latestEpoch + 1)).foldl CRoot.insert1 t).rootHash c) := by
-  sorry
+  obtain ⟨s', n, hrun, hrep'⟩ := batchInsert_refines c hc .directory s a t hrep hwf hep els hpf hlen
+  exact ⟨s', _, hrun, rootHash_of_reprRoot c .directory s' _ _ n hrep' (foldl_ep_le t hwf a hep els hpf hlen)⟩
 
 /-- corollary (C14): the order of the batch does not matter -/
 theorem batchInsert_perm (c : Cfg) (hc : c.emptyLabel.len = 0) (m : InsertMode)
@@ -113,6 +185,34 @@ theorem batchInsert_perm (c : Cfg) (hc : c.emptyLabel.len = 0) (m : InsertMode)
       s.batchInsert c m a (els.map fun x => (NodeLabel.ofBits x.1, x.2)) = .ok (s₁, a₁) ∧
       s.batchInsert c m a (els'.map fun x => (NodeLabel.ofBits x.1, x.2)) = .ok (s₂, a₂) ∧
       s₁.rootHash c a₁ = s₂.rootHash c a₂ ∧ a₁.latestEpoch = a₂.latestEpoch := by
-  sorry
+  have hpl : (t.leaves ++ newLeaves els (a.latestEpoch + 1)).Perm (t.leaves ++ newLeaves els' (a.latestEpoch + 1)) :=
+    List.Perm.append_left _ (hperm.map _)
+  have hpf' : PrefixFree (t.leaves ++ newLeaves els' (a.latestEpoch + 1)) :=
+    (hpl.pairwise_iff Canon.Incomp.symm).1 hpf
+  have hlen' : ∀ lf ∈ t.leaves ++ newLeaves els' (a.latestEpoch + 1), 1 ≤ lf.lbl.length ∧ lf.lbl.length ≤ 256 :=
+    fun lf h => hlen lf (hpl.mem_iff.2 h)
+  obtain ⟨s₁, n₁, hrun₁, hrep₁⟩ := batchInsert_refines c hc m s a t hrep hwf hep els hpf hlen
+  obtain ⟨s₂, n₂, hrun₂, hrep₂⟩ := batchInsert_refines c hc m s a t hrep hwf hep els' hpf' hlen'
+  obtain ⟨w₁, p₁⟩ := foldl_insert1_spec t hwf els _ hpf hlen
+  obtain ⟨w₂, p₂⟩ := foldl_insert1_spec t hwf els' _ hpf' hlen'
+  have heq : (newLeaves els (a.latestEpoch + 1)).foldl CRoot.insert1 t
+      = (newLeaves els' (a.latestEpoch + 1)).foldl CRoot.insert1 t :=
+    wf_unique _ _ w₁ w₂ ((p₁.trans hpl).trans p₂.symm)
+  refine ⟨s₁, s₂, _, _, hrun₁, hrun₂, ?_, rfl⟩
+  rw [rootHash_of_reprRoot c m s₁ _ _ n₁ hrep₁ (foldl_ep_le t hwf a hep els hpf hlen),
+    rootHash_of_reprRoot c m s₂ _ _ n₂ hrep₂ (foldl_ep_le t hwf a hep els' hpf' hlen'), heq]
+
+/-! non-vacuity: a first batch (labels of different lengths) into the freshly created tree -/
+example (c : Cfg) (hc : c.emptyLabel.len = 0) (m : InsertMode) (s : NodeStore) :
+    ∃ s₀ s' n, s.azksNew c = .ok (s₀, ⟨0, 1⟩) ∧
+      s₀.batchInsert c m ⟨0, 1⟩ ([([false, true], Dig.raw [1]), ([true], Dig.raw [2])].map
+        fun x => (NodeLabel.ofBits x.1, x.2)) = .ok (s', ⟨1, n⟩) ∧
+      ReprRoot c m s' (CRoot.ofLeaves [⟨[false, true], .raw [1], 1⟩, ⟨[true], .raw [2], 1⟩]) := by
+  obtain ⟨s₀, h0, hr0⟩ := azksNew_repr c m s
+  obtain ⟨s', n, h1, hr1⟩ := batchInsert_refines c hc m s₀ ⟨0, 1⟩ CRoot.empty hr0 Canon.Root.empty_wf
+    (by simp [CRoot.empty, CRoot.leaves]) [([false, true], Dig.raw [1]), ([true], Dig.raw [2])]
+    (by simp [PrefixFree, CRoot.empty, CRoot.leaves, newLeaves])
+    (by simp [CRoot.empty, CRoot.leaves, newLeaves])
+  exact ⟨s₀, s', n, h0, h1, hr1⟩
 
 end Akd.C01
